@@ -1704,6 +1704,7 @@ func c16Worker(c *Ctx) {
 	defer os.RemoveAll(root)
 	os.Setenv("PPROF_TMPDIR", filepath.Join(root, "tmp"))
 	os.Setenv("PPROF_BINARY_PATH", filepath.Join(root, "bin"))
+	perfErr := c16PerfSetup(root) // stand-in perf_to_profile on PATH (also needed by replayed cases)
 	k := &c16Checker{c: c, root: root}
 	if v, err := strconv.Atoi(c.Drv.Ask("fetch.chunk")); err == nil && v > 0 {
 		k.chunk = v
@@ -1792,8 +1793,8 @@ func c16Worker(c *Ctx) {
 		k.runCase(c16GenBin(r.Fork(), i))
 	}
 	// (1d) perf.data sources with equal base names, converted concurrently by the stand-in tool
-	if err := c16PerfSetup(root); err != nil {
-		c.Res.Notes = append(c.Res.Notes, "perf.data stream skipped: "+err.Error())
+	if perfErr != nil {
+		c.Res.Notes = append(c.Res.Notes, "perf.data stream skipped: "+perfErr.Error())
 	} else {
 		for i := 0; i < 5*c.Scale; i++ {
 			k.runCase(c16GenPerf(r.Fork(), i))
